@@ -283,19 +283,27 @@ class DocGen(object):
                 self.frames.append({})
                 isrc, iexp = self.gen(depth + 1, inmath or kind == 'math', inarg or kind == 'cmdarg')
                 self.frames.pop()
+                tail = ''
+                if not inarg and kind != 'cmdarg' and rnd.random() < 0.4:
+                    # a category code change with no definition beside it, in force until THIS scope closes:
+                    # the ~ right after the scope (next cell, after the group/environment/math) is active again
+                    isrc += '\\catcode`\\~=12\\relax ~'
+                    iexp = iexp + ['~']
+                    tail = '~'
+
                 if kind == 'group':
-                    src.append('{' + isrc + '}')
+                    src.append('{' + isrc + '}' + tail)
                 elif kind == 'begingroup':
-                    src.append('\\begingroup ' + isrc + '\\endgroup ')
+                    src.append('\\begingroup ' + isrc + '\\endgroup ' + tail)
                 elif kind == 'env':
                     e = rnd.choice(['center', 'quote', 'itemize'])
-                    src.append('\\begin{%s}%s%s\\end{%s}' % (e, '\\item ' if e == 'itemize' else '', isrc, e))
+                    src.append('\\begin{%s}%s%s\\end{%s}%s' % (e, '\\item ' if e == 'itemize' else '', isrc, e, tail))
                 elif kind == 'math':
-                    src.append('$' + isrc + '$ ')
+                    src.append('$' + isrc + '$ ' + tail)
                 elif kind == 'cmdarg':
                     src.append('\\textbf{' + isrc + '}')
                 elif kind == 'tabular':
-                    src.append('\\begin{tabular}{ll}' + isrc + '& x\\\\ y & z\\end{tabular}')
+                    src.append('\\begin{tabular}{ll}' + isrc + '& ' + tail + 'x\\\\ y & z\\end{tabular}')
                 exp.extend(iexp)
         return ''.join(src), exp
 
